@@ -110,3 +110,24 @@ package ledger
 //@   property C15 C13
 //@   ensures r != nil && has(r, revertsKey()) && r[revertsKey()] == str(txID)
 //@   ensures forall k string :: {has(r, k)} k != revertsKey() ==> has(r, k) == has(m, k) && r[k] == m[k]
+
+// ---- well-formed postings (C25, C28) ---------------------------------------------------------------
+// validAddr / validAsset stand for "matches accounts.Pattern" / "matches assets.Pattern" (regular expressions are not interpreted).
+
+//@ declare validAddr(s string) bool
+//@ declare validAsset(s string) bool
+//@ define wfPosting(p Posting) bool = p.Amount != nil && val(p.Amount) >= 0 && validAddr(p.Source) && validAddr(p.Destination) && validAsset(p.Asset)
+//@ define wfPostings(ps []Posting) bool = forall i int :: {ps[i]} 0 <= i && i < len(ps) ==> wfPosting(ps[i])
+
+//@ assumed func accounts.ValidateAddress(addr string) (r bool)
+//@   ensures r == validAddr(addr)
+
+//@ assumed func assets.IsValid(v string) (r bool)
+//@   ensures r == validAsset(v)
+
+//@ func (p Postings) Validate() (idx int, err error)
+//@   property C25 C28 C38
+//@   ensures err == nil ==> wfPostings(p) && idx == 0
+//@   ensures err != nil ==> 0 <= idx && idx < len(p) && !wfPosting(p[idx]) && forall j int :: {p[j]} 0 <= j && j < idx ==> wfPosting(p[j])
+//@   loop 1:
+//@     invariant forall j int :: {p[j]} 0 <= j && j < i ==> wfPosting(p[j])
